@@ -33,7 +33,7 @@ func genProfileAndGraphs(t *rapid.T, name string, nGraphs int) (string, []*m.Gra
 	for i := 0; i < nv; i++ {
 		g.budget = 6
 		p.Validations = append(p.Validations, m.Validation{Name: fmt.Sprintf("v%d", i), Level: pick(t, []string{"violation", "warning", "info"}, "level"), Class: "ex.Test", Body: g.bounded(40),
-			Message: pick(t, []string{"", "failed {{ex.p0}}", "plain message"}, "msg")})
+			Message: pick(t, []string{"", "failed {{ex.p0}}", "plain message", "100% of {{ex.p0}} is 50%d", "%s %v %d"}, "msg")})
 	}
 	for _, v := range p.Validations {
 		v.Body.MarkPolarity(m.Pos)
